@@ -172,6 +172,7 @@ def run(s):
         idx = 0
         for n_c, n_d, n_o, n_r, two, allow in itertools.product(range(4), range(4), range(4), range(2),
                                                                 (False, True), (False, True, 'omitted')):
+            cell = n_c * 5 + n_d * 3 + n_o * 2 + n_r + (1 if two else 0)
             for order in (0, 1):
                 idx += 1
                 if not s.mine(idx):
@@ -182,7 +183,10 @@ def run(s):
                 s.hist['lists_with_a_completed_roCreate'] += int(idx % 7 == 5 and n_c > 0)
                 if order:
                     docs = list(reversed(docs))
-                hows = (('strings', 'files', 's3')[idx % 3],) if q else ('strings', 'files', 's3')
+                # quick: one constructor per case, rotating so that every (counts, allow_incomplete) cell meets each
+                # constructor somewhere (idx % 3 alone is in lock-step with the allow_incomplete x order loops)
+                rot = cell + ['False', 'True', 'omitted'].index(str(allow)) + order
+                hows = (('strings', 'files', 's3')[rot % 3],) if q else ('strings', 'files', 's3')
                 for how in hows:
                     if how == 's3' and not docs:
                         pass
@@ -263,6 +267,12 @@ def gates(agg, tier):
     K.need(agg, r, any('__debug__=False' in k for k in keys), 'the -O configuration did not take effect (no __debug__=False run)')
     K.need(agg, r, agg['hist'].get('validation:accepted', 0) > 0, 'no collection was accepted')
     K.need(agg, r, agg['hist'].get('validation:InvalidMosCollection', 0) > 0, 'no collection was rejected')
+    # every constructor met every allow_incomplete value on a list that deserves to be accepted and on one that does not
+    for how in ('strings', 'files', 's3'):
+        for allow in ('False', 'True', "'omitted'"):
+            for want in ('accepted', 'InvalidMosCollection'):
+                K.need(agg, r, any(("'%s'" % how) in sg and (", %s, '%s')" % (allow, want)) in sg for sg in agg['sigs']),
+                       'constructor %s never met allow_incomplete=%s on a list expected to be %s' % (how, allow, want))
     for cfg in ('default', 'O'):
         n = sum(1 for sg in agg['sigs'] if sg.startswith("('%s'" % cfg))
         K.need(agg, r, n >= 512, 'configuration %s judged only %d distinct grid cells (< 512)' % (cfg, n))
